@@ -12,6 +12,8 @@ import json
 import common
 import designs
 
+h = common.repo_env()
+
 ASSUMPTIONS = [
     "a design the code rejects although Sem.src accepts it is not a violation of C01 (it constrains returned packages); it is "
     "reported as a broken correspondence unless it is one of the documented limitations in designs.known_limitation",
@@ -63,6 +65,125 @@ def judge(case, im, mo):
         yield ("corr", f"spice netlisting failed: {im['spice_error']}")
 
 
+
+# ------------------------------------------------------------------------------------------ fragment F2 (PortRefs.lean)
+
+def gen_f2_valid(rng):
+    """mostly valid: ports partitioned into groups; each group a tree / chain / cycle of references, with at most one declared signal"""
+    nsig = rng.randint(1, 3)
+    insts = [rng.choice([2, 2, 4]) for _ in range(rng.randint(2, 6))]
+    ports = [(i, p) for i, n in enumerate(insts) for p in range(n)]
+    order = ports[:]
+    rng.shuffle(order)
+    conns, ncid = [], 0
+    k = 0
+    while k < len(order):
+        size = min(len(order) - k, rng.choice([1, 1, 2, 3, 4]))
+        grp = order[k:k + size]
+        k += size
+        if size == 1:
+            if rng.random() < 0.25:
+                ncid += 1
+                conns.append([list(grp[0]), {"nc": ncid}])
+            else:
+                conns.append([list(grp[0]), {"sig": rng.randrange(nsig)}])
+            continue
+        root = grp[0]
+        for j, x in enumerate(grp[1:], start=1):
+            conns.append([list(x), {"pref": list(rng.choice(grp[:j]))}])   # a tree hanging from the root
+        r = rng.random()
+        if r < 0.5:
+            conns.append([list(root), {"sig": rng.randrange(nsig)}])
+        elif r < 0.65:
+            conns.append([list(root), {"pref": list(rng.choice(grp[1:]))}])    # a cycle, no declared signal
+        elif r < 0.75 and size > 2:
+            conns.append([list(grp[-1]), {"sig": rng.randrange(nsig)}]) if False else None
+    conns = [c for c in conns if c is not None]
+    rng.shuffle(conns)
+    return {"nsig": nsig, "insts": insts, "ports": [list(x) for x in ports], "conns": conns}
+
+
+def gen_f2(rng):
+    """One module of 2-6 two-/four-terminal leaves whose ports are wired to scalar signals, to one another's ports, to no-connects, or
+    left to the references made to them."""
+    nsig = rng.randint(1, 3)
+    insts = [rng.choice([2, 2, 4]) for _ in range(rng.randint(2, 6))]
+    ports = [(i, p) for i, n in enumerate(insts) for p in range(n)]
+    conns = []
+    ncid = 0
+    for (i, p) in ports:
+        r = rng.random()
+        if r < 0.38:
+            conns.append([[i, p], {"sig": rng.randrange(nsig)}])
+        elif r < 0.75:
+            q = rng.choice([x for x in ports if x != (i, p)])
+            conns.append([[i, p], {"pref": list(q)}])
+        elif r < 0.85:
+            ncid += 1
+            conns.append([[i, p], {"nc": ncid}])
+    return {"nsig": nsig, "insts": insts, "ports": [list(x) for x in ports], "conns": conns}
+
+
+PNAMES = {2: ["p", "n"], 4: ["d", "g", "s", "b"]}
+
+
+def impl_f2(case):
+    m = h.Module(name="F2")
+    sigs = [m.add(h.Signal(name=f"s{k}")) for k in range(case["nsig"])]
+    insts = []
+    for i, n in enumerate(case["insts"]):
+        of = h.R(r=1) if n == 2 else h.ExternalModule(name="Q4", port_list=[h.Port(name=x) for x in PNAMES[4]], paramtype=h.HasNoParams)()
+        insts.append(m.add(h.Instance(of=of), name=f"i{i}"))
+    for (i, p), c in case["conns"]:
+        pn = PNAMES[case["insts"][i]][p]
+        if "sig" in c:
+            v = sigs[c["sig"]]
+        elif "pref" in c:
+            j, q = c["pref"]
+            v = getattr(insts[j], PNAMES[case["insts"][j]][q])
+        else:
+            v = h.NoConn()
+        insts[i].connect(pn, v)
+    try:
+        pkg = h.to_proto(m)
+    except Exception as ex:  # noqa
+        return {"reject": common.errstr(ex)}
+    pm = pkg.modules[-1]
+    out = {}
+    for inst in pm.instances:
+        i = int(inst.name[1:])
+        for c in inst.connections:
+            out[f"{i},{PNAMES[case['insts'][i]].index(c.portname)}"] = c.target.sig
+    return {"net": out}
+
+
+def judge_f2(case, im, mo):
+    res = mo["res"]
+    ports = [tuple(x) for x in case["ports"]]
+    if any(v is None for v in res):
+        if "reject" not in im:
+            yield ("corr", {"why": "the model's pass raises, the implementation returned a package", "model": res, "impl": im.get("net")})
+        return
+    if "reject" in im:
+        yield ("corr", f"the model resolves every port, the implementation raised: {im['reject'][-200:]}")
+        return
+    net = im["net"]
+    got = [net.get(f"{i},{p}") for (i, p) in ports]
+    if any(g is None for g in got):
+        yield ("pred", {"why": "a port is left without a connection", "net": net})
+        return
+    for a in range(len(ports)):
+        if (res[a] < case["nsig"]) != (got[a] == f"s{res[a]}" if res[a] < case["nsig"] else False) and res[a] < case["nsig"]:
+            yield ("pred", {"why": f"port {ports[a]} is wired to declared signal s{res[a]} but exported on {got[a]}"})
+        if res[a] >= case["nsig"] and got[a] in [f"s{k}" for k in range(case["nsig"])]:
+            yield ("pred", {"why": f"port {ports[a]} is wired to no declared signal but exported on {got[a]}"})
+        for b in range(a + 1, len(ports)):
+            if (res[a] == res[b]) != (got[a] == got[b]):
+                yield ("pred", {"why": f"ports {ports[a]} and {ports[b]}: joined by the designer's connections = {res[a] == res[b]}, on one exported signal = {got[a] == got[b]}",
+                                "model": res, "impl": got})
+                return
+
+
 def run(ctx):
     rep = ctx.rep
     rep.extra["rule"] = (
@@ -105,12 +226,32 @@ def run(ctx):
                 if found:
                     break
         rep.extra["failing_input_search"] = {"designs": extra, "found": found, "seconds": round(time.time() - t0, 1)}
+    # fragment F2: the model of ResolvePortRefs itself (PortRefs.lean), on modules of scalar ports
+    f2cases = [(gen_f2 if k % 3 == 0 else gen_f2_valid)(ctx.rng) for k in range(300 if ctx.quick else 6000)]
+    f2impl = common.pmap(impl_f2, f2cases, chunk=16)
+    f2model = ctx.drv.run([{"prop": "F2", "op": "portrefs", "ports": c["ports"], "conns": c["conns"], "nsig": c["nsig"]} for c in f2cases])
+    f2stats = {"resolved": 0, "refused": 0}
+    for c, im, mo in zip(f2cases, f2impl, f2model):
+        f2stats["resolved" if "net" in im else "refused"] += 1
+        rep.count("f2", json.dumps(c), nontrivial="net" in im)
+        for v in judge_f2(c, im, mo):
+            rep.fail(v[0], {"stream": "f2", "case": c}, {"detail": v[1], "reject": im.get("reject")})
+    rep.extra["f2_stats"] = f2stats
     rep.extra["design_stats"] = stats
     rep.sample({"design": cases[2]["design"], "style": cases[2]["style"]})
 
 
 def replay(ctx, rp):
     case = rp["case"]["case"]
+    if rp["case"].get("stream") == "f2":
+        (im,) = common.pmap(impl_f2, [case], chunk=1)
+        (mo,) = ctx.drv.run([{"prop": "F2", "op": "portrefs", "ports": case["ports"], "conns": case["conns"], "nsig": case["nsig"]}])
+        fails = list(judge_f2(case, im, mo))
+        print(json.dumps({"failures": fails, "model": mo, "impl": im}, default=str)[:3000])
+        if any(f[0] == "pred" for f in fails):
+            print(f"VIOLATION property=C01 replay={rp.get('_path')}")
+            return 1
+        return 1 if fails else 0
     (c, im, mo), = designs.run_designs(ctx, [case])
     fails = list(judge(c, im, mo))
     print(json.dumps({"failures": fails, "src": mo["src"], "pkg": mo.get("pkg")}, default=str)[:3000])
